@@ -30,6 +30,13 @@ pub fn checker_inputs() -> Vec<(String, CkCase)> {
     let wide = PredCase { nodes: vec![(0, Role::Tracer), (l, Role::LeafDump), (l, Role::LeafDump), (l, Role::LeafDump), (l, Role::LeafDump)], edges: vec![1, 2, 3, 4] };
     add("wide outputs", vec![wide.clone()], vec![sol(0, 0xC1), sol(0, 0xC2)]);
     add("mixed predicates", vec![wide, fan, diamond(Role::TracerCompute(2), Role::Tracer, Role::LeafDumpPost)], vec![sol(2, 0xC3), sol(0, 0xC1), sol(1, 0xC2)]);
+    // two post-state readers of one start key with different counts in one level, and in two solutions
+    let rd = |count| Role::Probe { op: 2, ext: 0xC1, key: vec![0], count };
+    let two = PredCase { nodes: vec![(l, rd(1)), (l, rd(2)), (l, rd(3))], edges: vec![] };
+    let one_a = PredCase { nodes: vec![(l, rd(2))], edges: vec![] };
+    let one_b = PredCase { nodes: vec![(l, rd(1))], edges: vec![] };
+    add("readers same key different counts", vec![two.clone()], vec![sol(0, 0xC1), sol(0, 0xC1)]);
+    add("readers in two solutions", vec![one_a, one_b, two], vec![sol(0, 0xC1), sol(1, 0xC1), sol(2, 0xC1)]);
     // failing solutions among passing ones (failing indices must be stable)
     let bad = PredCase { nodes: vec![(l, Role::LeafFalse0), (l, Role::Fails)], edges: vec![] };
     let good = PredCase { nodes: vec![(l, Role::LeafTrue), (l, Role::LeafDump)], edges: vec![] };
@@ -59,6 +66,23 @@ pub fn vm_programs() -> Vec<(String, Vec<Op>, RVm)> {
         v.push((
             format!("two-failing/{breadth}"),
             vec![push(breadth), Op::Compute(C::Compute), Op::Stack(S::Dup), push(0), Op::Pred(Pred::Gt), Op::TotalControlFlow(T::PanicIf), Op::Compute(C::ComputeEnd)],
+            RVm::default(),
+        ));
+        // children consume words the parent left below the index (base + index), leave the stack as high
+        v.push((
+            format!("consume-parent-words/{breadth}"),
+            vec![push(1000), push(7), push(breadth), Op::Compute(C::Compute), Op::Alu(asm::Alu::Add), Op::Alu(asm::Alu::Add), Op::Stack(S::Dup), push(1), Op::Memory(M::Alloc), Op::Memory(M::Store), Op::Compute(C::ComputeEnd), push(9)],
+            RVm::default(),
+        ));
+        // children exit from inside their own repeat loop (early exit), later children read the counter
+        v.push((
+            format!("early-loop-exit/{breadth}"),
+            vec![
+                push(2), push(1), Op::Stack(S::Repeat),
+                push(breadth), Op::Compute(C::Compute),
+                Op::Access(asm::Access::RepeatCounter), push(1), Op::Memory(M::Alloc), Op::Memory(M::Store),
+                push(3), push(1), Op::Stack(S::Repeat), Op::Compute(C::ComputeEnd), Op::Stack(S::RepeatEnd),
+            ],
             RVm::default(),
         ));
         // children inside an open repeat loop using the counter
